@@ -512,6 +512,8 @@ TEXT_GROUPS = [
     {"name": "text:csv", "keys": _texts("1,2")}, {"name": "text:true", "keys": _texts("true", "true")},
     {"name": "text:1.0", "keys": _texts("1.0")},
     # a text that is the NAME of a member of SE (and of IE), not a value: no routine may start to know it after having seen it once
+    # EMPTY collections: nothing to convert, still a container of the call's own
+    {"name": "text:empty-list", "keys": _texts("[]") + ["[]", "()"]}, {"name": "text:empty-dict", "keys": _texts("{}") + ["{}"]},
     {"name": "text:member-name", "keys": _texts("word")}, {"name": "text:member-name-2", "keys": _texts("one")},
 ]
 STR_ONLY_CALLS = [("serdes.dateparse(K, datetime.date)", "dateparse", True),
